@@ -137,6 +137,7 @@ def check_case(case):
 def gen(tier):
     opts = gmsg.GenOpts(tier)
     opts.extra_widths = False     # the reference bytes must be the canonical ones here
+    opts.template.defs_in_rep = True
     return lambda ch: gmsg.gen_case(ch, opts)
 
 
